@@ -88,8 +88,9 @@ def symbolize(pcs):
     return {pc: lines[2 * i] for i, pc in enumerate(pcs)}
 
 
-def describe_input(pre, idx, full):
-    p = subprocess.run([_exe, pre, "/dev/null", "0", "0", "full=%d" % full, "dump=%d:/dev/null" % idx], stdout=subprocess.PIPE, text=True)
+def describe_input(pre, idx, full, annexb=0):
+    p = subprocess.run([_exe, pre, "/dev/null", "0", "0", "full=%d" % full, "annexb=%d" % annexb, "dump=%d:/dev/null" % idx], stdout=subprocess.PIPE, text=True,
+                       env=dict(os.environ, **ENV))
     return p.stdout.strip()
 
 
@@ -107,9 +108,10 @@ def run(tier):
         r = enc.session(SEEDS[name], out=pre, timeout=120)
         if not (r.get("parsed") and r.get("completed") == 1):
             continue
-        n = int(subprocess.run([_exe, pre, "/dev/null", "0", "0", "count=1", "full=%d" % full], stdout=subprocess.PIPE, text=True).stdout.strip())
-        sizes[name] = n
-        for annexb in (0, 1):
+        for annexb in (0, 1, 2):
+            n = int(subprocess.run([_exe, pre, "/dev/null", "0", "0", "count=1", "full=%d" % full, "annexb=%d" % annexb], stdout=subprocess.PIPE, text=True,
+                                   env=dict(os.environ, **ENV)).stdout.strip())
+            sizes["%s/annexb=%d" % (name, annexb)] = n
             for proto in (1, 2):
                 step = max(200, n // 12)
                 for a in range(0, n, step):
@@ -131,18 +133,18 @@ def run(tier):
     for (kind, fn), occ in sorted(by_site.items()):
         seed, pre, idx, annexb, proto = occ[0]
         what = "%s in %s on %d inputs; first: seed %s input #%d (%s) annexb=%d protocol=%d" % (
-            kind, fn, len(occ), seed, idx, describe_input(pre, idx, full) if idx >= 0 else "?", annexb, proto)
+            kind, fn, len(occ), seed, idx, describe_input(pre, idx, full, annexb) if idx >= 0 else "?", annexb, proto)
         ck.violation("C10:%s@%s" % (kind, fn), what, {"seed": seed, "seed_args": SEEDS[seed], "id": idx, "annexb": annexb, "proto": proto, "full": full})
     nsites = len(by_site)
     cov = {"evaluations": total, "distinct_nontrivial": max(2, len(res)) if total else 0,
-           "rule": "for each seed stream, framing flag (annexb 0/1) and protocol (corrupt TU last / valid TUs follow): every truncation length, every single-bit "
+           "rule": "for each seed stream, framing (low-overhead seed with is_annexb 0 / 1, seed converted to Annex-B units with is_annexb 1) and protocol (corrupt TU last / valid TUs follow): every truncation length, every single-bit "
                    "flip, every byte set to 00/FF/80/7F, every OBU deleted/duplicated/swapped, every size field +1/-1/0/max, every OBU-boundary splice of the "
                    "first two temporal units, plus all byte strings of length <= %s and all length-3 strings over {00,0A,12,32,80,FF}; "
                    "distinct_nontrivial = number of (seed, framing, protocol, id-range) shards completed" % ("2" if full else "1 (length 2 over a 16-byte alphabet)"),
-           "samples": [{"seed": n, "args": enc.describe(SEEDS[n]), "mutation_space": sizes[n]} for n in sizes],
+           "samples": [{"seed": n, "args": enc.describe(SEEDS[n.split("/")[0]]), "mutation_space": sizes[n]} for n in sizes],
            "exhaustive": bool(complete), "distinct_fault_sites": nsites, "shards": len(items), "shards_done": len(res)}
     return ck.finish(cov, ["faults (SEGV etc.) are caught in-process and attributed to the faulting function; the decoder instance is then abandoned",
-                           "mutation distance 1 from %d valid SVT-encoded seeds (libaom-encoded seeds are not used: no independent encoder harness was built)" % len(sizes)])
+                           "mutation distance 1 from %d valid SVT-encoded seeds in two framings (libaom-encoded seeds are not used: no independent encoder harness was built)" % len(set(n.split("/")[0] for n in sizes))])
 
 
 def replay(path):
